@@ -9,16 +9,19 @@ type mentions no mapped name, else token-level substitution N -> M, NSchema -> z
 table) AND absolute clause (the text with the table denotes rshape m t - every mapped name at every constructor position,
 map keys included, is its target - inside dom_m and outside C05's remaining classes)."""
 import itertools
+import json
+import os
 import random
 
 from tools import vlib
 from tools.vlib import Outcome, sx
 from tools.props import c05, c05_types as T
+from tools.props import c18_hist
 
 MANIFEST = {
     "level_text": "Coq theorems (Properties/C18.v, no axioms) over the same faithful Gallina model as C05 (repaired parse_type_structure, visitors with the type_mappings lookup in visit_custom, Zod visitor/schema builder, repaired add_types_prefix) for every type, table, site and mode: C18_frame (if no custom name of the parsed structure is a key of the table, all five sites in both modes print byte for byte what they print without the table), C18_render_subst (the text rendered with the table is the text of the structure in which each mapped name is replaced by its target), C18_subst_ts_sites (at every site whose text is a TypeScript type - parameter, field, channel, return, event payload; 8 of the 10 site x mode pairs - the text printed with the table denotes the README shape in which every mapped name, at any depth and in map-key position, is its target, namespace-qualified at return/event sites; premise: outside C05's remaining classes), C18_abs_oracle_exact (the absolute clause of the run-time oracle is equivalent to that statement), C18_subst_all_sites (the same at all ten site x mode pairs, Zod schema sites included, unconditionally for tables with targets string/number/boolean and types nested less than 31 levels in the domain of the C10 round-trip theorem), C18_subst_all_sites_under_link (the same at all ten site x mode pairs for the rest of the domain, Zod schema sites included, under the explicit hypothesis that the builder's text parses to the builder's tree - zod_parse_link, the round trip of the C10 development - and the nesting premise tdepth < 60), and computed positive statements on the witnesses of the three repaired classes. Tied to /repo on every run by rendering every enumerated type with and without every table through the real code and comparing with the extracted model string for string; the extracted relational oracle is applied to the implementation's two texts.",
     "design_ref": "DESIGN.md section 5 C18",
-    "level_note": "Proved for all inputs: frame (all sites, both modes) and the absolute clause of substitution at all 8 TypeScript-text site x mode pairs (return/event through add_types_prefix included). The relational token-level clause (text with table = text without table with N replaced by M) where a key is mentioned, and both clauses at the two Zod schema sites, are machine-checked only on bounded sweeps of the model (C18_sweep_depth1_partial in the property file; the depth-2 sweep is coq/Proofs/C18Sweep2.v, compiled by the thorough tier, kept out of the coqchk closure) and by the run-time oracle; no defect class is left there after the repairs C05-4-prefix-composite and C05-2-3-top-level-commas (C18-1..3 fixed). The clause 'N is never declared' concerns types.ts of a whole project and is NOT covered here (no project-level generation in this check); 'never referenced by name' is checked on the type text of the five sites only. Mapping keys are assumed to be custom type names as type_to_string prints them (PathBuf, DateTime<Utc>), targets in {string, number, boolean}.",
+    "level_note": "Project level (stream history): the real CLI binary is run on projects in which the mapped name reaches the output by exactly one route, twice into one directory with an edit of the table in between, with the table coming from a -c file or from tauri.conf.json; judged against a fresh generation under the final table and by the unit-level oracle on the site text (no theorem: the cache decision is modelled by C08/C14). Proved for all inputs: frame (all sites, both modes) and the absolute clause of substitution at all 8 TypeScript-text site x mode pairs (return/event through add_types_prefix included). The relational token-level clause (text with table = text without table with N replaced by M) where a key is mentioned, and both clauses at the two Zod schema sites, are machine-checked only on bounded sweeps of the model (C18_sweep_depth1_partial in the property file; the depth-2 sweep is coq/Proofs/C18Sweep2.v, compiled by the thorough tier, kept out of the coqchk closure) and by the run-time oracle; no defect class is left there after the repairs C05-4-prefix-composite and C05-2-3-top-level-commas (C18-1..3 fixed). The clause 'N is never declared' concerns the declarations of types.ts and is NOT covered (the history stream reads type positions only); 'never referenced by name' is checked on the type text of the five sites only. Mapping keys are assumed to be custom type names as type_to_string prints them (PathBuf, DateTime<Utc>), targets in {string, number, boolean}.",
     "technique": "Rocq/Coq proof over hand-written model + correspondence check (extracted OCaml vs Rust harness)"
 }
 
@@ -214,6 +217,15 @@ def run(rep):
     outs, st = evaluate(corpus_cases())
     rep.add("corpus", outs)
     c05.merge(stats, st)
+    # project level, through the real CLI binary: routes x table edits between two runs x configuration sources
+    vlib.build_repo_bin()
+    hist_corpus = json.load(open(os.path.join(vlib.VERIF, "corpus", "C18", "histories", "cases.json")))
+    rep.add("history-corpus", c18_hist.evaluate(hist_corpus))
+    hcases = c18_hist.cases_for(rep.tier, rng)
+    rep.add("history", c18_hist.evaluate(hcases))
+    rep.extra.setdefault("distribution", {})["history"] = {
+        "cases": len(hcases), "cli_runs": 4 * len(hcases), "routes": c18_hist.ROUTES, "edits": c18_hist.EDITS,
+        "sources": c18_hist.SOURCES, "names": list(c18_hist.NAMES)}
     cases = []
     for t in spines18(2):
         for m in tables_for(t, rng, thorough):
@@ -258,6 +270,10 @@ def replay(rep, payload):
     items = payload.get("disagreeing_cases") or [payload]
     for it in items:
         c = it["case"]
+        if c.get("what") == "history":
+            vlib.build_repo_bin()
+            rep.add("history", c18_hist.evaluate([{k: c[k] for k in ("route", "edit", "source", "mode", "name")}]))
+            continue
         want = {(c["site"], c["mode"])} if "site" in c else None
         outs, _ = evaluate([{"ty": c["tree"], "mappings": c["mappings"]}], want=want)
         rep.add(it.get("stream", "replay"), outs)
